@@ -2,8 +2,8 @@
 import hashlib
 
 from .core import exc_class, hx, unhx
-from .gitobj_common import (author_line_spec, date_dict, enc_date, enc_opt, gen_bytes, gen_date, gen_fullname,
-                            mk_person, mk_tstz, person_dict)
+from .gitobj_common import (LEGACY_DATE_MODES, author_line_spec, date_dict, date_dict_legacy, enc_date, enc_opt, gen_bytes,
+                            gen_bytes_wide, gen_date_wide, gen_fullname_wide, gen_id, mk_person, mk_tstz, person_dict)
 
 ID = "C04"
 PROPS = "Props/C04.v"
@@ -12,44 +12,98 @@ OBLIGATION = "release_git_object"
 REQUESTS_NEED_IMPL = True
 THEOREMS = ["C04_id_is_tag_hash", "C04_parse", "C04_object_hex_roundtrip", "C04_type_map_injective", "C04_type_recoverable",
             "C04_manifest_injective", "C04_irrelevant_fields", "C04_presence", "C04_no_target", "C04_type_table",
-            "C04_satisfiable", "C04_tagger_date_exact"]
+            "C04_satisfiable", "C04_raw_manifest_precedence", "C04_tagger_date_exact"]
 RULE = ("5 target types x {no author, author, author+date, date without author (rejected)} x message {None, empty, "
-        "arbitrary incl. newlines / leading spaces / binary} x names with newlines/spaces/empty x dates over the whole "
-        "accepted range, all microsecond shapes, canonical and junk offset bytes; target None (TypeError) included; every case "
+        "arbitrary incl. newlines / leading spaces / binary} x names with newlines/spaces/empty, CR / CRLF, NUL, TAB continuation, "
+        "lone separators, VT/FF/FS/NEL, header look-alikes, >100 lines, ~1 kB x dates over the whole accepted range (digit-count "
+        "boundaries), all microsecond shapes, canonical and junk offset bytes; messages padded so that the object length sits at "
+        "99/100/101, 999/1000/1001 (thorough: 9999/10000); targets of 20 bytes, git's null id, one byte apart from the previous "
+        "case's target, 1 or 32 bytes, empty; target None (TypeError) included; every case "
         "is rebuilt with the other synthetic flag, a split author and a metadata mapping from a pool (legacy 'extra_headers' "
-        "layout, keys named like tag-object lines or like Release fields, nested containers, empty) and must keep its id; "
+        "layout, keys named like tag-object lines or like Release fields, nested containers, empty; as dict or ImmutableDict) and "
+        "must keep its id; the base object itself sometimes carries such metadata. Every case: constructor, from_dict, the deprecated "
+        "dict argument (stale ids), taggers without fullname, check(), second calls; one group per case of: from_dict with the same "
+        "dict twice / optional keys absent / id=b'' / to_dict round trips and dict arguments with and without id and with metadata / "
+        "dates in the older dictionary encodings; one per case of: explicit id (empty / own / foreign: check() must refuse it), raw "
+        "manifest (own / empty / arbitrary), evolve there and back; "
         "non-trivial = an optional field present and a multi-line or empty value; distinct = distinct request")
 TRUSTED = ["format_date / offset bytes as modelled in model/Time.v (property C16)", "bytes join/split/'%d' as modelled in lib/Headers.v, lib/Dec.v",
            "lib/Sha1.v as an instance of the hash oracle (validated against hashlib on every case)"]
-ASSUMPTIONS = ["agreement with real git / dulwich on the expressible subset is validation of the spec, not a theorem"]
+ASSUMPTIONS = ["agreement with real git / dulwich on the expressible subset is validation of the spec, not a theorem",
+               "an id given explicitly to the constructor is kept as given (only check() compares it with the tag hash); a raw manifest "
+               "replaces the fields for the id only (C04_raw_manifest_precedence); target_swhid() is observed for 20-byte targets only"]
 
 TTYPES = ["content", "directory", "revision", "release", "snapshot"]
 TCODE = {"content": "c", "directory": "d", "revision": "v", "release": "r", "snapshot": "s"}
 GITWORD = {"content": b"blob", "directory": b"tree", "revision": b"commit", "release": b"tag", "snapshot": b"refs"}
 SWHIDT = {"content": "cnt", "directory": "dir", "revision": "rev", "release": "rel", "snapshot": "snp"}
+BOUNDARY_LENGTHS = [99, 100, 101, 999, 1000, 1001, 9999, 10000]
+
+
+def _esc_len(v):
+    return len(v) + v.count(b"\n")
+
+
+def _payload_len(c):
+    """length of the tag payload for these fields, from the format's definition (used only to aim a message at a length
+    boundary; never compared with the implementation)"""
+    n = 7 + len(c["target"] or "") + 1 + 5 + len(GITWORD[c["ttype"]]) + 1 + 4 + _esc_len(bytes.fromhex(c["name"])) + 1
+    if c["author"] is not None:
+        n += 7 + _esc_len(author_line_spec(bytes.fromhex(c["author"]), c["date"])) + 1
+    if c["message"] is not None:
+        n += 1 + len(c["message"]) // 2
+    return n
 
 
 def gen(rng, tier):
     n_cases = 1500 if tier == "quick" else 40000
     cases = []
+    prev = []
+    n_huge = 0
     for k in range(n_cases):
         pres = k % 4
-        c = {"name": gen_bytes(rng).hex(),
-             "message": rng.choice([None, b"", gen_bytes(rng), gen_bytes(rng)]),
-             "target": bytes(rng.randrange(256) for _ in range(20)).hex() if rng.random() > 0.03 else None,
+        x = rng.random()
+        target = None if x < 0.03 else b"" if x < 0.045 else gen_id(rng, prev)
+        if target:
+            prev = [target]
+        msg = rng.choice([None, b"", gen_bytes_wide(rng), gen_bytes_wide(rng)])
+        c = {"name": gen_bytes_wide(rng).hex(),
+             "message": None if msg is None else msg.hex(),
+             "target": None if target is None else target.hex(),
              "ttype": TTYPES[(k // 4) % 5],
-             "author": gen_fullname(rng).hex() if pres in (1, 2) else None,
-             "date": gen_date(rng) if pres in (2, 3) else None,
+             "author": gen_fullname_wide(rng).hex() if pres in (1, 2) else None,
+             "date": gen_date_wide(rng) if pres in (2, 3) else None,
              "synthetic": rng.random() < 0.5, "md": rng.randrange(len(MD_POOL)), "md_val": gen_bytes(rng).hex()}
-        c["message"] = None if c["message"] is None else c["message"].hex()
+        # ---- dimensions of the audit (absent key = the behaviour of earlier recorded cases)
+        if rng.random() < 0.3:
+            c["md0"] = rng.randrange(len(MD_POOL))          # the base object itself carries metadata
+        c["md_immutable"] = rng.random() < 0.4
+        x = (k // 20) % 5
+        if x == 0:
+            c["id_mode"] = rng.choice(["empty", "own", "foreign"])
+        elif x == 1:
+            c["raw"] = rng.choice(["M", "", gen_bytes_wide(rng).hex(), b"tag 0\x00".hex()])
+        elif x == 2:
+            c["evolve"] = True
+        c["grp"] = (k // 4) % 3
+        c["dl"] = rng.randrange(len(LEGACY_DATE_MODES))
+        if c["message"] is not None and c["target"] is not None and rng.random() < 0.04:      # aim the object length at a digit-count boundary
+            want = rng.choice(BOUNDARY_LENGTHS[:6] if (tier == "quick" or n_huge >= 40) else BOUNDARY_LENGTHS)
+            have = _payload_len(c)
+            if have <= want:
+                c["message"] = (bytes.fromhex(c["message"]) + b"x" * (want - have)).hex()
+                n_huge += want > 2000
         cases.append(c)
     return cases
 
 
-def nontrivial(c):
-    vals = [bytes.fromhex(c["name"])] + ([bytes.fromhex(c["message"])] if c["message"] is not None else []) + \
+def _vals(c):
+    return [bytes.fromhex(c["name"])] + ([bytes.fromhex(c["message"])] if c["message"] is not None else []) + \
            ([bytes.fromhex(c["author"])] if c["author"] is not None else [])
-    return (c["author"] is not None or c["message"] is not None) and any(v == b"" or b"\n" in v for v in vals)
+
+
+def nontrivial(c):
+    return (c["author"] is not None or c["message"] is not None) and any(v == b"" or b"\n" in v for v in _vals(c))
 
 
 def classify(c):
@@ -58,8 +112,36 @@ def classify(c):
           "msg=" + ("None" if c["message"] is None else "empty" if c["message"] == "" else "bytes")]
     if c["target"] is None:
         ks.append("no-target")
+    elif c["target"] == "":
+        ks.append("empty-target")
+    elif len(c["target"]) != 40:
+        ks.append("target-not-20-bytes")
+    elif not c["target"].strip("0"):
+        ks.append("null-id-target")
     if c["date"] is not None and c["date"][1]:
         ks.append("microseconds")
+    vals = _vals(c)
+    if any(b"\r" in v for v in vals):
+        ks.append("value-with-CR")
+    if any(b"\x00" in v for v in vals):
+        ks.append("value-with-NUL")
+    if any(b"\n\t" in v for v in vals):
+        ks.append("TAB-continuation")
+    if any(v.count(b"\n") > 100 for v in vals):
+        ks.append("value>100-lines")
+    if c.get("md0") is not None:
+        ks.append("base-object-with-metadata")
+    for k in ("id_mode", "raw", "evolve"):
+        if c.get(k) is not None:
+            ks.append("%s=%s" % (k, c[k] if k == "id_mode" else "M" if c[k] == "M" else "empty" if c[k] == "" else "yes"))
+    if c.get("grp") is not None:
+        ks.append("dict-route-group=%d" % c["grp"])
+    try:
+        n = _payload_len(c)
+        if n in BOUNDARY_LENGTHS:
+            ks.append("object-length=%d" % n)
+    except Exception:
+        pass
     return ks
 
 
@@ -76,21 +158,128 @@ MD_POOL = [lambda v: {"some": "metadata", "n": 1},
                       "synthetic": True, "target": v, "target_type": "revision", "name": v}]
 
 
-def mk_md(c):
-    return MD_POOL[c.get("md", 0)](bytes.fromhex(c.get("md_val", "")))
+def mk_md(c, key="md"):
+    md = MD_POOL[c.get(key) or 0](bytes.fromhex(c.get("md_val", "")))
+    if c.get("md_immutable"):
+        from swh.model.collections import ImmutableDict
+        md = ImmutableDict(md)
+    return md
 
 
-def _build(c, variant=0):
+def _build(c, variant=0, **over):
     from swh.model.model import Release, ReleaseTargetType
-    return Release(name=bytes.fromhex(c["name"]), message=None if c["message"] is None else bytes.fromhex(c["message"]),
-                   target=None if c["target"] is None else bytes.fromhex(c["target"]),
-                   target_type=ReleaseTargetType(c["ttype"]),
-                   synthetic=c["synthetic"] if variant == 0 else not c["synthetic"],
-                   author=mk_person(c["author"], variant), date=mk_tstz(c["date"]),
-                   metadata=None if variant == 0 else mk_md(c))
+    kw = dict(name=bytes.fromhex(c["name"]), message=None if c["message"] is None else bytes.fromhex(c["message"]),
+              target=None if c["target"] is None else bytes.fromhex(c["target"]),
+              target_type=ReleaseTargetType(c["ttype"]),
+              synthetic=c["synthetic"] if variant == 0 else not c["synthetic"],
+              author=mk_person(c["author"], variant), date=mk_tstz(c["date"]),
+              metadata=(None if c.get("md0") is None else mk_md(c, "md0")) if variant == 0 else mk_md(c))
+    kw.update(over)
+    return Release(**kw)
 
 
 _LAST_ID = [b"\x02" * 20]
+
+
+def _from_dict_base(c):
+    return {"name": bytes.fromhex(c["name"]), "message": None if c["message"] is None else bytes.fromhex(c["message"]),
+            "target": bytes.fromhex(c["target"]), "target_type": c["ttype"], "synthetic": c["synthetic"],
+            "author": person_dict(c["author"]), "date": date_dict(c["date"])}
+
+
+def _wide_routes(c, r, res, d):
+    """the routes added by the audit.  same_id / same_manifest: {route: value} that must equal the id / manifest of the
+    plainly constructed release; notes: [violated statement]"""
+    import warnings
+    from swh.model import git_objects
+    from swh.model.model import Release
+    same_id, same_man, notes = {}, {}, []
+    res["same_id"], res["same_manifest"], res["notes"] = same_id, same_man, notes
+    man = bytes.fromhex(res["manifest"])
+
+    def route(table, name, f):
+        try:
+            table[name] = f()
+        except Exception as e:
+            table[name] = "error:" + exc_class(e)
+
+    route(same_man, "release_git_object(r), second call", lambda: git_objects.release_git_object(r).hex())
+    route(same_id, "compute_hash()", lambda: r.compute_hash().hex())
+    try:
+        r.check()
+    except Exception as e:
+        notes.append("check() refuses the constructed release: " + exc_class(e))
+    mode = c.get("id_mode")
+    try:
+        if mode == "empty":
+            same_id["constructor with id=b''"] = _build(c, id=b"").id.hex()
+        elif mode == "own":
+            r2 = _build(c, id=r.id)
+            same_id["constructor with its own id"] = r2.id.hex()
+            same_man["object built with its own id"] = git_objects.release_git_object(r2).hex()
+            r2.check()
+        elif mode == "foreign":
+            foreign = r.id[:-1] + bytes([r.id[-1] ^ 1])
+            r2 = _build(c, id=foreign)
+            same_id["compute_hash() of an object built with a foreign id"] = r2.compute_hash().hex()
+            same_man["object built with a foreign id"] = git_objects.release_git_object(r2).hex()
+            if r2.id != foreign:
+                notes.append("an explicitly given id is not kept")
+            try:
+                r2.check()
+                notes.append("check() accepts an id that is not the SHA-1 of the tag object")
+            except ValueError:
+                pass
+    except Exception as e:
+        notes.append("explicit id (%s): %s" % (mode, exc_class(e)))
+    if c.get("raw") is not None:
+        try:
+            raw = man if c["raw"] == "M" else bytes.fromhex(c["raw"])
+            rr = _build(c, raw_manifest=raw)
+            res["raw_id"] = rr.id.hex()
+            same_man["object carrying a raw manifest"] = git_objects.release_git_object(rr).hex()
+            if rr.compute_hash() != rr.id:
+                notes.append("compute_hash() of an object carrying a raw manifest differs from its id")
+        except Exception as e:
+            res["raw_id"] = "error:" + exc_class(e)
+    if c.get("evolve"):
+        try:
+            n0 = bytes.fromhex(c["name"])
+            m0 = None if c["message"] is None else bytes.fromhex(c["message"])
+            n2 = n0 + b"\n2"
+            e = r.evolve(name=n2, message=None)
+            if e.id != _build(c, name=n2, message=None).id or e.id != hashlib.sha1(git_objects.release_git_object(e)).digest():
+                notes.append("evolve(name=..., message=None) does not give the id of the tag with the new fields")
+            same_id["evolve(name, message) there and back"] = e.evolve(name=n0, message=m0).id.hex()
+        except Exception as e:
+            notes.append("evolve: " + exc_class(e))
+    grp = c.get("grp")
+    keys0 = sorted(d)
+    if grp in (None, 0):
+        route(same_id, "from_dict, the same dict a second time", lambda: Release.from_dict(d).id.hex())
+        if sorted(d) != keys0:
+            notes.append("from_dict removed keys from the dictionary it was given")
+        route(same_id, "from_dict, optional keys absent when unset, id=b'', other synthetic flag, metadata", lambda: Release.from_dict(
+            dict({k: v for k, v in d.items() if v is not None or k == "message"}, id=b"", synthetic=not c["synthetic"],
+                 metadata=mk_md(c))).id.hex())
+        route(same_id, "from_dict, metadata=None and raw_manifest=None given", lambda: Release.from_dict(
+            dict(d, metadata=None, raw_manifest=None)).id.hex())
+    if grp in (None, 1):
+        route(same_id, "from_dict(to_dict())", lambda: Release.from_dict(r.to_dict()).id.hex())
+        route(same_id, "from_dict(to_dict() without id)", lambda: Release.from_dict(
+            {k: v for k, v in r.to_dict().items() if k != "id"}).id.hex())
+        with warnings.catch_warnings():
+            warnings.simplefilter("ignore")
+            route(same_man, "release_git_object(<dict without id>)", lambda: git_objects.release_git_object(d).hex())
+            route(same_man, "release_git_object(<to_dict() of the variant carrying metadata>)",
+                  lambda: git_objects.release_git_object(_build(c, 1).to_dict()).hex())
+            route(same_man, "release_git_object(<dict with metadata, without id>)",
+                  lambda: git_objects.release_git_object(dict(d, metadata=dict(mk_md(c)))).hex())
+    if grp in (None, 2) and c["date"] is not None and c.get("dl") is not None:
+        mode = LEGACY_DATE_MODES[c["dl"] % len(LEGACY_DATE_MODES)]
+        ld = date_dict_legacy(c["date"], mode)
+        if ld is not None:
+            route(same_id, "from_dict, date in the '%s' encoding" % mode, lambda: Release.from_dict(dict(d, date=ld)).id.hex())
 
 
 def impl(c):
@@ -100,8 +289,9 @@ def impl(c):
         r = _build(c)
     except Exception as e:
         return {"error": exc_class(e)}
-    res = {"id": r.id.hex(), "manifest": git_objects.release_git_object(r).hex(), "swhid": str(r.swhid()),
-           "target_swhid": str(r.target_swhid())}
+    res = {"id": r.id.hex(), "manifest": git_objects.release_git_object(r).hex(), "swhid": str(r.swhid())}
+    if len(c["target"]) == 40:
+        res["target_swhid"] = str(r.target_swhid())
     try:
         import warnings
         with warnings.catch_warnings():
@@ -121,10 +311,9 @@ def impl(c):
         res["id_variant"] = _build(c, 1).id.hex()
     except Exception as e:
         res["id_variant"] = "error:" + exc_class(e)
+    d = None
     try:
-        d = {"name": bytes.fromhex(c["name"]), "message": None if c["message"] is None else bytes.fromhex(c["message"]),
-             "target": bytes.fromhex(c["target"]), "target_type": c["ttype"], "synthetic": c["synthetic"],
-             "author": person_dict(c["author"]), "date": date_dict(c["date"])}
+        d = _from_dict_base(c)
         res["id_from_dict"] = Release.from_dict(d).id.hex()
     except Exception as e:
         res["id_from_dict"] = "error:" + exc_class(e)
@@ -148,12 +337,32 @@ def impl(c):
             res["nofullname_bad"] = bad
         except Exception as e:
             res["nofullname_bad"] = "error:" + exc_class(e)
+    if d is not None:
+        try:
+            _wide_routes(c, r, res, d)
+        except Exception as e:
+            res.setdefault("notes", []).append("the added routes crashed: " + exc_class(e))
     return res
 
 
+def _raw_hex(c, ires):
+    raw = c.get("raw")
+    if raw == "M":
+        return ires.get("manifest")
+    return raw
+
+
+def _rel_request(c, ires):
+    w = ["rel", hx(bytes.fromhex(c["name"])), enc_opt(c["message"]), enc_opt(c["target"]), TCODE[c["ttype"]],
+         enc_opt(c["author"]), enc_date(c["date"])]
+    raw = _raw_hex(c, ires)
+    if raw is not None:
+        w.append(enc_opt(raw))
+    return " ".join(w)
+
+
 def requests(c, ires):
-    r = [" ".join(["rel", hx(bytes.fromhex(c["name"])), enc_opt(c["message"]), enc_opt(c["target"]), TCODE[c["ttype"]],
-                   enc_opt(c["author"]), enc_date(c["date"])])]
+    r = [_rel_request(c, ires)]
     if "manifest" in ires:
         r.append("ptag " + hx(bytes.fromhex(ires["manifest"])))
     return r
@@ -186,8 +395,21 @@ def oracle(c, ires, mres):
     if ires.get("nofullname_bad"):
         return ("Release.from_dict with a tagger given as {name, email} without fullname: the id is not the tag id of the "
                 "documented fullname ('name', '<email>' or 'name <email>') for (name, email) = %s" % str(ires["nofullname_bad"])[:200])
-    if ires["swhid"] != "swh:1:rel:" + ires["id"] or ires["target_swhid"] != "swh:1:%s:%s" % (SWHIDT[c["ttype"]], c["target"]):
+    if ires["swhid"] != "swh:1:rel:" + ires["id"] or \
+            ("target_swhid" in ires or len(c["target"]) == 40) and ires.get("target_swhid") != "swh:1:%s:%s" % (SWHIDT[c["ttype"]], c["target"]):
         return "swhid()/target_swhid() wrong"
+    for k, v in ires.get("same_id", {}).items():
+        if v != ires["id"]:
+            return "the id differs on the route '%s': %s" % (k, v[:60])
+    for k, v in ires.get("same_manifest", {}).items():
+        if v != ires["manifest"]:
+            return "the tag object differs on the route '%s': %s" % (k, v[:80])
+    if ires.get("notes"):
+        return ires["notes"][0]
+    if "raw_id" in ires:
+        raw = _raw_hex(c, ires)
+        if ires["raw_id"] != hashlib.sha1(bytes.fromhex(raw)).hexdigest():
+            return "the id of a release carrying a raw manifest is not the SHA-1 of that manifest: " + ires["raw_id"]
     got = mres.get("parsed_impl_manifest", "none")
     if not got.startswith("ok "):
         return "the independent tag parser cannot parse the manifest"
@@ -205,15 +427,23 @@ def compare(c, ires, mres):
             "implementation raised %s, model says %s" % (ires["error"], mres["rel"][:40])
     if not mres["rel"].startswith("ok "):
         return "implementation accepted, model says " + mres["rel"]
-    _, man, sha = mres["rel"].split(" ")
+    w = mres["rel"].split(" ")
+    man, sha = w[1], w[2]
     if man != hx(bytes.fromhex(ires["manifest"])):
         return "manifest bytes differ between model and implementation"
     if sha != ires["id"]:
         return "id differs from the model's SHA-1 of the manifest"
+    if (len(w) > 3) != ("raw_id" in ires) or (len(w) > 3 and w[3] != ires["raw_id"]):
+        return "id (raw manifest first) differs from the model's rel_compute_hash"
     return None
 
 
 def shrink(c):
+    for k in ("id_mode", "raw", "evolve", "md0", "dl"):
+        if c.get(k) is not None:
+            yield {x: y for x, y in c.items() if x != k}
+    if c.get("md_immutable"):
+        yield dict(c, md_immutable=False)
     for k in ("message", "author", "date"):
         if c[k] is not None and not (k == "author" and c["date"] is not None):
             yield dict(c, **{k: None})
@@ -221,11 +451,14 @@ def shrink(c):
         if c[k]:
             b = bytes.fromhex(c[k])
             yield dict(c, **{k: b[:len(b) // 2].hex()})
+            yield dict(c, **{k: b[len(b) // 2:].hex()})
             yield dict(c, **{k: b[1:].hex()})
     if c["date"] is not None:
         yield dict(c, date=[0, c["date"][1], c["date"][2]])
         yield dict(c, date=[c["date"][0], 0, c["date"][2]])
         yield dict(c, date=[c["date"][0], c["date"][1], b"+0000".hex()])
+    if c["target"] and len(c["target"]) != 40:
+        yield dict(c, target="11" * 20)
 
 
 # functions of /repo whose executed-line coverage by this run is reported in the evidence
@@ -288,11 +521,11 @@ def pre_checks(ctx):
 
 
 def coq_cases(cases):
-    """release_valid / release_git_object (+ Sha1.sha1 of the manifest) evaluated by vm_compute inside Coq vs the
-    extracted driver (extraction cross-check)"""
+    """release_valid / release_git_object / rel_compute_hash (+ Sha1.sha1 of the manifest) evaluated by vm_compute inside Coq
+    vs the extracted driver (extraction cross-check)"""
     from . import core
     def size(c):
-        return sum(len(c[k]) // 2 for k in ("name", "message", "author") if c[k] is not None)
+        return sum(len(c[k]) // 2 for k in ("name", "message", "author") if c[k] is not None) + len(c.get("raw") or "") // 2
     cases[:] = [c for c in cases if size(c) <= 200]      # in place: the evidence's `n` is the number evaluated
     tt = {"content": "RContent", "directory": "RDirectory", "revision": "RRevision", "release": "RRelease", "snapshot": "RSnapshot"}
     def nl(h):
@@ -305,17 +538,19 @@ def coq_cases(cases):
         return "{| ts := {| seconds := (%d)%%Z; microseconds := (%d)%%Z |}; offset_bytes := %s |}" % (d[0], d[1], nl(d[2]))
     def rel(c):
         return ("{| r_name := %s; r_message := %s; r_target := %s; r_ttype := %s; r_synthetic := false; r_author := %s; "
-                "r_date := %s; r_metadata := None; r_raw_manifest := None |}"
-                % (nl(c["name"]), opt(c["message"]), opt(c["target"]), tt[c["ttype"]], opt(c["author"], person), opt(c["date"], date)))
+                "r_date := %s; r_metadata := None; r_raw_manifest := %s |}"
+                % (nl(c["name"]), opt(c["message"]), opt(c["target"]), tt[c["ttype"]], opt(c["author"], person), opt(c["date"], date),
+                   opt(_raw_hex(c, {}))))
     src = ("From Coq Require Import List NArith ZArith.\nFrom SWH.lib Require Import Bytes Sha1.\nFrom SWH.model Require Import Time Rel.\n"
            "Import ListNotations.\n" + core.COQ_CHECKSUM +
            "\nDefinition cases : list release := [" + ";\n ".join(rel(c) for c in cases) + "].\n"
-           "Eval vm_compute in map (fun r => if release_valid r then match release_git_object r with MOk m => cksum (m ++ sha1 m) "
+           "Eval vm_compute in map (fun r => if release_valid r then match release_git_object r with MOk m => cksum (m ++ sha1 m ++ "
+           "match r_raw_manifest r, rel_compute_hash sha1 r with Some _, Some h => 256%N :: h | _, _ => [] end) "
            "| MTypeError => 2%N | MValueError => 1%N end else 1%N) cases.\n")
-    resp = core.run_driver(ID, [" ".join(["rel", hx(bytes.fromhex(c["name"])), enc_opt(c["message"]), enc_opt(c["target"]), TCODE[c["ttype"]],
-                                          enc_opt(c["author"]), enc_date(c["date"])]) for c in cases])
+    resp = core.run_driver(ID, [_rel_request(c, {}) for c in cases])
     exp = []
     for r in resp:
         w = r.split(" ")
-        exp.append(core.py_cksum(unhx(w[1]) + unhx(w[2])) if w[0] == "ok" else {"err ValueError": 1, "err TypeError": 2}.get(r, 3))
+        exp.append(core.py_cksum(list(unhx(w[1])) + list(unhx(w[2])) + ([256] + list(unhx(w[3])) if len(w) > 3 else []))
+                   if w[0] == "ok" else {"err ValueError": 1, "err TypeError": 2}.get(r, 3))
     return src, exp
